@@ -341,7 +341,352 @@ pub fn run(tier: &str, seed: u64) -> Report {
     let w = gen_world(&mut wr, &cfg);
     check_build(&mut report, &mut batch, &w, &[], None, &format!("gen{}", wi % 50));
   }
+  registry_faults(&mut report, tier, &mut rng);
   batch.finish(&mut report, "C03");
   let _ = BTreeSet::<u8>::new();
   report
+}
+
+// ---------------------------------------------------------------------------------------------
+// registry worlds: faults on package metadata, version manifests, probes and package files
+
+fn reg_base() -> crate::registry::RegWorld {
+  use crate::registry::*;
+  let it = |form: Form, text: &str| Item { form, text: text.to_string() };
+  let file = |path: &str, items: Vec<Item>| RegFile { path: path.into(), items, raw: None, manifest: ManifestEntry::Ok, fault: Fault::None, tampered_cache: false };
+  let ver = |v: &str, exports: ExportsDesc, files: Vec<RegFile>, mg: MgKind, yanked: bool| RegVer {
+    version: v.into(), yanked, created_day: None, exports, files, mg, fault: Fault::None, lockfile_checksum: None,
+  };
+  let ex2 = ExportsDesc::Obj(vec![(".".into(), Some("./mod.ts".into())), ("./sub".into(), Some("./sub.ts".into()))]);
+  let a = RegPkg {
+    name: "@s/a".into(),
+    versions: vec![
+      ver("1.0.0", ExportsDesc::Str("./mod.ts".into()), vec![file("/mod.ts", vec![])], MgKind::None, false),
+      ver(
+        "1.1.0",
+        ex2.clone(),
+        vec![
+          file("/mod.ts", vec![it(Form::Namespace, "./sub.ts"), it(Form::Namespace, "jsr:@s/b@1"), it(Form::Dynamic, "npm:chalk@5")]),
+          file("/sub.ts", vec![it(Form::Namespace, "./util.ts")]),
+          file("/util.ts", vec![]),
+        ],
+        MgKind::V2,
+        false,
+      ),
+      ver("2.0.0", ExportsDesc::Str("./mod.ts".into()), vec![file("/mod.ts", vec![])], MgKind::None, true),
+    ],
+    fault: Fault::None,
+    stale: None,
+  };
+  let b = RegPkg {
+    name: "@s/b".into(),
+    versions: vec![ver(
+      "1.0.0",
+      ex2,
+      vec![file("/mod.ts", vec![it(Form::ExportAll, "./sub.ts")]), file("/sub.ts", vec![it(Form::Namespace, "https://jsr.io/@s/a/1.0.0/mod.ts")])],
+      MgKind::None,
+      false,
+    )],
+    fault: Fault::None,
+    stale: None,
+  };
+  RegWorld {
+    pkgs: vec![a, b],
+    user: vec![
+      UserFile {
+        url: "file:///main.ts".into(),
+        items: vec![
+          it(Form::Namespace, "jsr:@s/a@1"),
+          it(Form::Namespace, "jsr:@s/b@1/sub"),
+          it(Form::Dynamic, "jsr:@s/a@^1.1/sub"),
+          it(Form::Namespace, "jsr:@s/a@2"),
+          it(Form::Namespace, "./local.ts"),
+          it(Form::Namespace, "https://x.test/m.ts"),
+        ],
+      },
+      UserFile { url: "file:///local.ts".into(), items: vec![] },
+      UserFile { url: "https://x.test/m.ts".into(), items: vec![] },
+    ],
+    roots: vec!["file:///main.ts".into()],
+    kind: GraphKind::All,
+    prefer_cached: false,
+    passthrough: false,
+    skip_dynamic_deps: false,
+    cutoff_day: None,
+    excl: vec![],
+    excl_prefixes: vec![],
+    cached: BTreeSet::new(),
+    has_locker: false,
+    lock_manifests: vec![],
+  }
+}
+
+const REG_FAULTS: &[&str] = &["missing", "error", "malformed", "redirect", "external", "wrong-bytes", "tampered-cache", "final-in-registry"];
+
+fn apply_reg_fault(loader: &mut crate::registry::RegLoader, url: &str, kind: &str) {
+  use crate::registry::*;
+  if kind == "final-in-registry" {
+    // a loader that follows redirects itself: the URL is answered with a package file under that
+    // file's own (final) specifier
+    if url.starts_with(REG) {
+      return;
+    }
+    let target = file_url("@s/a", "1.1.0", "/mod.ts");
+    if let Some(t) = loader.served.get(&target).cloned() {
+      loader.served.insert(url.to_string(), Served { final_spec: Some(target), ..t });
+    }
+    return;
+  }
+  let Some(s) = loader.served.get_mut(url) else { return };
+  let is_meta = url.ends_with("meta.json");
+  let a = match kind {
+    "missing" => Ans::Missing,
+    "error" => Ans::Error,
+    "malformed" => Ans::Bytes(if is_meta { b"{ not json".to_vec() } else { b"export const = ;;; ((".to_vec() }),
+    "redirect" => Ans::Redirect(format!("{}.moved", url)),
+    "external" => Ans::External,
+    "wrong-bytes" => match &s.fresh {
+      Ans::Bytes(b) => {
+        let mut b = b.clone();
+        if is_meta {
+          // still valid JSON, different bytes
+          b.extend(b" ");
+        } else {
+          b.extend(b"\n// changed after publication\n");
+        }
+        Ans::Bytes(b)
+      }
+      other => other.clone(),
+    },
+    _ => s.fresh.clone(),
+  };
+  if kind == "tampered-cache" {
+    // (putting an uncached version manifest into the cache would change what prefer-cached selects:
+    // that is a different cache state, not a fault)
+    if is_meta && s.cached.is_none() {
+      return;
+    }
+    if let Ans::Bytes(b) = &s.fresh {
+      let mut b = b.clone();
+      b.extend(b" ");
+      s.cached = Some(Ans::Bytes(b));
+    }
+  } else {
+    s.fresh = a.clone();
+    if s.cached.is_some() {
+      s.cached = Some(a);
+    }
+  }
+}
+
+fn reg_check(report: &mut Report, w: &crate::registry::RegWorld, faults: &[(String, &str)], reference: Option<&(ModuleGraph, BTreeMap<String, String>)>, label: &str) {
+  use crate::registry::*;
+  let mut loader = RegLoader::new(w);
+  // (a fault kind that does not apply to a URL is no fault)
+  let faults: Vec<(String, &str)> = faults.iter().filter(|(u, k)| !(*k == "final-in-registry" && u.starts_with(REG))).cloned().collect();
+  let faults = &faults[..];
+  for (u, k) in faults {
+    apply_reg_fault(&mut loader, u, k);
+  }
+  let desc = json!({"registry_world": w.describe(), "faults": faults.iter().map(|(u, k)| format!("{}={}", u, k)).collect::<Vec<_>>(), "label": label});
+  report.evaluations += 1;
+  match build_reg(w, &loader) {
+    Err(BuildFailure::NonTermination) => report.fail("oracle", "build-does-not-terminate", format!("{}: loader call budget exhausted", label), desc),
+    Err(BuildFailure::Panic(m)) => report.fail("oracle", "build-panicked", format!("{}: {}", label, m), desc),
+    Ok(b) => {
+      let g = &b.graph;
+      if g.verif_slots().iter().any(|(_, s, _)| s.is_none()) {
+        report.fail("oracle", "pending-entry-left", format!("{}: a pending slot survived the build", label), desc.clone());
+      }
+      let js = serde_json::to_string(g).unwrap();
+      if js.contains("INTERNAL ERROR") {
+        report.fail("oracle", "internal-error-in-serialisation", format!("{}: serialised graph reports an internal error", label), desc.clone());
+      }
+      // a faulted package file that the build asked for is an error entry (an external marker is a module)
+      for (u, k) in faults {
+        if u.ends_with("meta.json") || *k == "external" || *k == "final-in-registry" {
+          continue;
+        }
+        // different bytes are a fault only where a checksum is known (package files)
+        if !u.starts_with(REG) && (*k == "wrong-bytes" || *k == "tampered-cache") {
+          continue;
+        }
+        let asked = b.log.iter().any(|c| c.specifier == *u && c.cache_setting != "only");
+        if !asked {
+          continue;
+        }
+        // a tampered cache entry is only seen by loads that may use the cache (all module loads do)
+        let s = ModuleSpecifier::parse(u).unwrap();
+        if !matches!(g.try_get(&s), Err(_)) {
+          report.fail("oracle", "fault-without-error-entry", format!("{}: {} answered {} but its entry is not an error", label, u, k), desc.clone());
+        }
+        report.count(&format!("registry-fault-hit:{}", k));
+      }
+      // a faulted metadata file: every jsr: specifier that the fault-free build sent into that
+      // package (version) is an error entry now
+      if let Some((g0, slots0)) = reference {
+        let mut affected: Vec<String> = vec![];
+        for (u, k) in faults {
+          let rest = u.strip_prefix(REG).unwrap_or("");
+          if u.ends_with("/meta.json") {
+            let name = rest.strip_suffix("/meta.json").unwrap();
+            affected.push(format!("{}{}/", REG, name));
+            if *k == "wrong-bytes" || *k == "tampered-cache" {
+              continue; // still a valid meta.json
+            }
+            // (only specifiers some module of the faulted graph still imports)
+            let mut imported: HashSet<ModuleSpecifier> = HashSet::new();
+            for m in g.modules() {
+              for d in m.dependencies().values() {
+                for r in [&d.maybe_code, &d.maybe_type] {
+                  if let Some(t) = r.maybe_specifier() {
+                    imported.insert(t.clone());
+                  }
+                }
+              }
+            }
+            for (s, t) in &g0.redirects {
+              if s.scheme() == "jsr" && imported.contains(s) && t.as_str().starts_with(&format!("{}{}/", REG, name)) {
+                if !matches!(g.try_get(s), Err(_)) && g.redirects.get(s).is_none() {
+                  report.fail("oracle", "fault-without-error-entry", format!("{}: {} answered {} but {} is neither an error nor resolved", label, u, k, s), desc.clone());
+                }
+                if g.redirects.get(s).is_some() {
+                  report.fail("oracle", "resolved-despite-metadata-fault", format!("{}: {} answered {} but {} was resolved", label, u, k, s), desc.clone());
+                }
+              }
+            }
+          } else if let Some(x) = rest.strip_suffix("_meta.json") {
+            // @s/a/1.1.0
+            affected.push(format!("{}{}/", REG, x));
+          } else {
+            affected.push(u.clone());
+          }
+        }
+        // locality
+        let mut ctx2 = Ctx::default();
+        let now = slot_strings(&mut ctx2, g);
+        let is_affected = |x: &ModuleSpecifier| {
+          affected.iter().any(|a| x.as_str().starts_with(a.as_str()) || (x.scheme() == "jsr" && g0.redirects.get(x).map(|t| t.as_str().starts_with(a.as_str())).unwrap_or(false)))
+        };
+        // what the fault-free graph reaches from the roots without passing through an affected resource
+        let mut still_reachable: HashSet<ModuleSpecifier> = HashSet::new();
+        let mut stack: Vec<ModuleSpecifier> = g0.roots.iter().cloned().collect();
+        while let Some(x) = stack.pop() {
+          if is_affected(&x) || !still_reachable.insert(x.clone()) {
+            continue;
+          }
+          if let Some(t) = g0.redirects.get(&x) {
+            stack.push(t.clone());
+          }
+          if let Ok(Some(m)) = g0.try_get(&x) {
+            for d in m.dependencies().values() {
+              for r in [&d.maybe_code, &d.maybe_type] {
+                if let Some(t) = r.maybe_specifier() {
+                  stack.push(t.clone());
+                }
+              }
+            }
+            if let Module::Js(js) = m {
+              if let Some(td) = &js.maybe_types_dependency {
+                if let Some(t) = td.dependency.maybe_specifier() {
+                  stack.push(t.clone());
+                }
+              }
+            }
+          }
+        }
+        for (k, v0) in slots0 {
+          let ks = ModuleSpecifier::parse(k).unwrap();
+          let c = cone(g0, &ks);
+          if c.iter().any(|x| is_affected(x)) || !still_reachable.contains(&ks) {
+            continue;
+          }
+          match now.get(k) {
+            Some(v) if v != v0 => report.fail(
+              "oracle",
+              "fault-changed-unrelated-entry",
+              format!("{}: entry {} does not depend on a faulted resource but changed:\n  without faults: {}\n  with faults:    {}", label, k, v0, v),
+              desc.clone(),
+            ),
+            None => report.fail("oracle", "fault-removed-unrelated-entry", format!("{}: entry {} does not depend on a faulted resource but is gone", label, k), desc.clone()),
+            _ => {}
+          }
+        }
+      }
+      let nerr = g.module_errors().count();
+      report.nontrivial.insert(format!("registry/{}/e{}", faults.iter().map(|(u, k)| format!("{}:{}", if u.ends_with("/meta.json") { "pkg" } else if u.ends_with("_meta.json") { "ver" } else { "file" }, k)).collect::<Vec<_>>().join("+"), nerr.min(5)));
+    }
+  }
+}
+
+fn registry_faults(report: &mut Report, tier: &str, rng: &mut Rng) {
+  use crate::registry::*;
+  // variants of the base world: module information embedded or not, cache warm or cold, prefer-cached
+  for variant in 0..6 {
+    let mut w = reg_base();
+    if variant % 2 == 1 {
+      // warm cache: everything the registry serves is cached
+      let all: Vec<String> = w.served().keys().filter(|u| u.starts_with(REG)).cloned().collect();
+      w.cached = all.into_iter().collect();
+    }
+    if variant / 2 == 1 {
+      w.prefer_cached = true;
+    }
+    if variant / 2 == 2 {
+      w.has_locker = true;
+      w.lock_manifests = vec![("@s/a@1.1.0".into(), true)];
+    }
+    let loader0 = RegLoader::new(&w);
+    let Ok(b0) = build_reg(&w, &loader0) else {
+      report.fail("oracle", "build-panicked", "fault-free registry base world failed".into(), w.describe());
+      continue;
+    };
+    let mut c0 = Ctx::default();
+    let s0 = slot_strings(&mut c0, &b0.graph);
+    let mut urls: Vec<String> = b0.log.iter().map(|c| c.specifier.clone()).filter(|u| u.starts_with(REG) || u.starts_with("https://x.test/")).collect();
+    // probes of version manifests that were not needed in the end are loads too
+    for v in ["1.0.0", "1.1.0", "2.0.0"] {
+      urls.push(ver_meta_url("@s/a", v));
+    }
+    urls.sort();
+    urls.dedup();
+    let reference = (b0.graph, s0);
+    reg_check(report, &w, &[], Some(&reference), &format!("regbase{}", variant));
+    for u in &urls {
+      for k in REG_FAULTS {
+        reg_check(report, &w, &[(u.clone(), *k)], Some(&reference), &format!("regbase{}", variant));
+      }
+    }
+    // pairs of faults
+    let pairs = if tier == "thorough" { usize::MAX } else { 600 };
+    let mut n = 0;
+    'outer: for (i, u1) in urls.iter().enumerate() {
+      for u2 in urls.iter().skip(i + 1) {
+        for k1 in REG_FAULTS {
+          for k2 in REG_FAULTS {
+            if tier != "thorough" && !rng.chance(1, 12) {
+              continue;
+            }
+            reg_check(report, &w, &[(u1.clone(), *k1), (u2.clone(), *k2)], Some(&reference), &format!("regbase{}", variant));
+            n += 1;
+            if n >= pairs {
+              break 'outer;
+            }
+          }
+        }
+      }
+    }
+    report.exhaustive.push(format!("registry base world variant {}: every single fault of 8 kinds on each of {} URLs the build (or a probe) asks for", variant, urls.len()));
+  }
+  // generated registry worlds with faults
+  let n = if tier == "thorough" { 6000 } else { 800 };
+  for i in 0..n {
+    let mut wr = rng.fork();
+    let cfg = RegCfg { faults: true, ..Default::default() };
+    let mut w = gen_reg_world(&mut wr, &cfg);
+    if i % 3 == 0 {
+      w.prefer_cached = true;
+    }
+    reg_check(report, &w, &[], None, "reggen");
+  }
 }
